@@ -247,6 +247,7 @@ class Simulator(EventProducer, SimulatorInterface, Generic[TIME]):
         self._name = name
         self._time_type: type = time_type 
         self._simulator_time: TIME = initial_time
+        self._time_announced: bool = True
         self._run_until_time: TIME = None
         self._run_until_including: bool = True
         self._replication: ReplicationInterface = None
@@ -309,6 +310,7 @@ class Simulator(EventProducer, SimulatorInterface, Generic[TIME]):
         self._replication = replication
         self._model = model
         self._simulator_time = replication.start_sim_time
+        self._time_announced = True
         # the statistics of a previous replication are rebuilt (and 
         # registered again under their keys) by construct_model 
         model.output_statistics().clear()
@@ -634,6 +636,7 @@ class DEVSSimulator(Simulator[TIME], Generic[TIME]):
                     > self._replication.end_sim_time):
                 return
             event: SimEventInterface = self._eventlist.pop_first()
+            self._time_announced = True
             self.fire_timed(event.time, Simulator.TIME_CHANGED_EVENT,
                             event.time)
             self._simulator_time = event.time
@@ -663,6 +666,9 @@ class DEVSSimulator(Simulator[TIME], Generic[TIME]):
                 # the clock never moves backwards
                 if until > self._simulator_time:
                     self._simulator_time = until
+                    # no listener has been told about this time: an event
+                    # at the bound is announced when the run is resumed
+                    self._time_announced = False
                 # the replication only ends when its end time was reached
                 if until >= end_time and including:
                     self._replication_state = ReplicationState.ENDING
@@ -672,7 +678,9 @@ class DEVSSimulator(Simulator[TIME], Generic[TIME]):
             event: SimEventInterface = self.eventlist().pop_first()
             if not isinstance(event, SimEventInterface):
                 raise DSOLError(f"Invalid SimEvent {event} from eventlist")
-            if (event.time != self.simulator_time):
+            if (event.time != self.simulator_time 
+                    or not self._time_announced):
+                self._time_announced = True
                 self.fire_timed(event.time, Simulator.TIME_CHANGED_EVENT,
                                 event.time)
             self._simulator_time = event.time
